@@ -500,13 +500,55 @@ def stale_view_logs():
   return [('summary-row-just-auto-removed', gone), ('summary-table-all-groups-live', summ)]
 
 
+def derived_logs(rng, n_random):
+  """A formula that first adds a record with lookupOrAddDerived and then looks the same table up again, next to
+  companion formula columns that look up / count the same key, after the user deleted derived rows: the temporary
+  record of a read-only evaluation must not leak into the companions.  One fixed document, then random variants."""
+  def doc(second, companion, trigger, keys, ds, removed, extra_companion):
+    f = 'r = Other.lookupOrAddDerived(k=$k)\nreturn %s / $d' % second
+    cols = [{'id': 'k', 'type': 'Text', 'isFormula': False}, {'id': 'd', 'type': 'Int', 'isFormula': False},
+            {'id': 'trig', 'type': 'Any', 'isFormula': not trigger, 'formula': f},
+            {'id': 'cnt', 'type': 'Any', 'isFormula': True, 'formula': companion}]
+    if extra_companion:
+      cols.append({'id': 'cnt2', 'type': 'Any', 'isFormula': True, 'formula': extra_companion})
+    log = [[['AddTable', 'Other', [{'id': 'k', 'type': 'Text', 'isFormula': False}]]],
+           [['BulkAddRecord', 'Other', [None] * len(keys), {'k': list(keys)}]],
+           [['AddTable', 'T', cols]]]
+    for k, d in zip(keys, ds):
+      log.append([['AddRecord', 'T', None, {'k': k, 'd': d}]])
+    for r in removed:
+      log.append([['RemoveRecord', 'Other', r]])
+    return log
+  out = [('derived-record-deleted-by-user',
+          doc('len(Other.lookupRecords(k=$k))', 'len(Other.lookupRecords(k=$k))', True, ['a', 'b', 'c'], [1, 1, 0], [3], None))]
+  seconds = ['len(Other.lookupRecords(k=$k))', 'Other.lookupOne(k=$k).id', 'len(Other.lookupRecords(k=$k)) + r.id * 0',
+             'sum(x.id for x in Other.lookupRecords(k=$k))']
+  companions = ['len(Other.lookupRecords(k=$k))', 'Other.lookupOne(k=$k).id', 'Other.lookupOne(k=$k).k or "none"',
+                'len(Other.lookupRecords(k=$k)) * 10 + len(Other.all)']
+  for i in range(n_random):
+    keys = rng.sample(['a', 'b', 'c', 'd', 'e'], rng.randint(2, 4))
+    if rng.random() < 0.3:
+      keys.append(keys[0])                       # two T rows share a key
+    ds = [rng.choice([0, 0, 1, 2]) for _ in keys]
+    nk = len(set(keys))
+    removed = sorted(rng.sample(range(1, nk + 1), rng.randint(1, nk)))
+    out.append(('derived-variant-%d' % i,
+                doc(rng.choice(seconds), rng.choice(companions), rng.random() < 0.7, keys, ds, removed,
+                    rng.choice(companions + [None, None]))))
+  return out
+
+
 def error_states(ctx, stats, seen):
   """The whole battery on the documents of error_state_logs(), then a follow-up bundle against a control engine."""
   import random
   errs = error_state_logs()
-  for name, log in errs + stale_view_logs():
+  derived = derived_logs(random.Random(ctx.rng.getrandbits(48)), ctx.n(4, 40))
+  for name, log in errs + stale_view_logs() + derived:
     ld = c04.LoggedDoc(log)
     if ld.e.recompute_map:
+      if name.startswith('derived-variant'):
+        stats['derived-variants-not-settled (skipped)'] += 1
+        continue
       raise core.TieBroken('directed error state %s is not clean after its log' % name)
     held = sum(1 for t in G.user_tables(ld.e) for c in ld.e.tables[t].all_columns.values() if not c.is_private()
                for r in ld.e.tables[t].row_ids if type(c.raw_get(r)).__name__ == 'RaisedException')
@@ -515,7 +557,8 @@ def error_states(ctx, stats, seen):
     if name == 'summary-row-just-auto-removed' and list(ld.e.tables['Src_summary_K'].row_ids) != [1]:
       raise core.TieBroken('directed state %s: the summary row was not auto-removed' % name)
     control = canon_out(c04.LoggedDoc(log).apply([['Calculate']]))
-    then = [['Calculate'], ['UpdateRecord', 'Math', 1, {'A': 2}] if (name, log) in errs else ['AddRecord', 'Src', None, {'K': 'b'}]]
+    then = [['Calculate'], ['UpdateRecord', 'Math', 1, {'A': 2}] if (name, log) in errs else
+            (['AddRecord', 'T', None, {'k': 'a', 'd': 1}] if (name, log) in derived else ['AddRecord', 'Src', None, {'K': 'b'}])]
     stats['error-state-cells-holding-errors:' + name] = held
     done = []
     bad = None
@@ -531,21 +574,25 @@ def error_states(ctx, stats, seen):
       if kind:
         bad = (kind, what, [list(call)])
         break
-      if not ld.e.recompute_map:
+      if True:
+        # (the revert of a side effect may re-invalidate cells: the Calculate also settles those, and must find their
+        # stored values unchanged -- a value that leaked from a temporary record shows up here as a correction)
         got = canon_out(ld.e.apply_user_actions([G.ua(['Calculate'])]))
         stats['error-state-follow-up-calculates'] += 1
         if got != control:
           bad = ('calculate-emits-after-readonly', 'Calculate right after %s%r emits %s; on the untouched control: %s' % (
             call[0], tuple(call[1:4]), got[:200], control[:200]), [list(call)])
           break
-    if bad is None:
+    if bad is None and (name, log) not in derived:
+      # (not for the derived-record documents: without the Calculate in between, the revert of one call's side effect
+      # leaves re-invalidated cells that the NEXT call evaluates -- the known finding C29-nested-recalc-unreported)
       r = replay_kind({'log': log, 'calls': done, 'then': then})
       if r is not None:
         bad = (r[0], r[1], done)
     if bad is not None:
       kind, what, calls = bad
-      w = {'log': copy.deepcopy(log), 'calls': calls, 'then': then}
-      if replay_kind(w) is None:
+      w = {'log': copy.deepcopy(log), 'calls': calls, 'then': then if kind != 'calculate-emits-after-readonly' else [['Calculate']]}
+      if replay_kind(w) is None and (name, log) not in derived:
         w['calls'] = done            # it needed the earlier calls as well
       seen[kind] += 1
       if seen[kind] <= 2:
